@@ -19,4 +19,13 @@ PROPS = {
         assumptions=["bufio.Reader.Read calls the underlying Read once, with the caller's slice when it is at least the buffer size and with its internal buffer otherwise (validated by the mux suite, including buffer sizes where the panic is reachable)",
                      "'legal frame size' is the implementation's declared limit maxMessageSize (256 KiB); larger declared lengths are answered with an error, which the model states"],
     ),
+    'C19': dict(
+        lean_modules=['RsyncModel.Properties.C19'],
+        gen=[],
+        suites=['acl'],
+        level_text="Proved in Lean for every rule list and address: access is granted iff no rule is decisive or the first decisive rule is a well-formed allow containing the address; a deny or malformed rule reached first never grants; rules after the first decisive one are irrelevant; empty list admits all; IPv4-mapped IPv6 addresses compare as IPv4 (IPNet.Contains modelled byte-wise). The model (rule splitting, action check, `all`, Contains incl. 4-in-6, first match) is tied to rsyncd.checkACL by a bounded-exhaustive correspondence (all rule lists of length 0..2 quick / 0..3 thorough over a 33-rule pool x 33 addresses), with net.ParseIP/ParseCIDR results shipped to the model.",
+        level_note="Trusted: Lean kernel; net.SplitHostPort/ParseIP/ParseCIDR (their results are model inputs); the correspondence harness. The ordering 'ACL before @RSYNCD: OK' in HandleDaemonConn is checked by the daemon suite of C07/C06 when built, not by a theorem here.",
+        rule="acl suite: bounded-exhaustive rule lists over a pool of allow/deny x {all, /0 /8 /16 /23 /24 /25 /32 v4, /0 /10 /32 /48 /128 v6, v4-mapped-in-v6 networks} and malformed rules x addresses on and around every prefix boundary incl. mapped, zoned and unparsable ones; non-trivial = at least one rule; the implementation-level oracle is an independent bitwise first-match reference",
+        assumptions=["net.ParseIP returns the 16-byte form; net.ParseCIDR returns (network number, mask) as shipped; both are validated only through the suite"],
+    ),
 }
